@@ -11,23 +11,23 @@ E3H = E3 + '; second tier: explicit-state search over call histories whose last 
 
 CHECKS = {
  # id: (technique, level text, level note, design ref)
- 'C03': (E1H, 'All operand-pair structures (orders 1..4 quick / 1..5 thorough, singleton modes, rank profiles, every broadcast alignment, scalar kinds, dtypes) x all arithmetic operations are executed and compared bit-for-bit (small-integer cores) or to roundoff (generic cores) with dense arithmetic; rank law and dtype checked.',
+ 'C03': (E1H, 'All operand-pair structures (orders 1..4 quick / 1..5 thorough, singleton modes, rank profiles, every broadcast alignment, scalar kinds, dtypes) x all arithmetic operations are executed and compared bit-for-bit (small-integer cores) or to roundoff (generic cores) with dense arithmetic; rank law and dtype checked. Uniform structures n^d (d=4,5) with uniform ranks for both operands.',
          'values are fixed generic/integer families, not enumerated (identities are polynomial in the cores); torch dense kernels trusted', '§5 C03'),
 }
 CHECKS.update({
- 'C04': (E1H, 'All rectangular operator/vector/operator structures (orders 1..3 quick / 1..4 thorough; row, column and inner sizes distinct per position; every singleton substitution; rank profiles; dense operands with 0..3 batch dims) x all operator operations compared bit-for-bit / to roundoff with the dense operator expression; product rank law and dtype checked.',
+ 'C04': (E1H, 'All rectangular operator/vector/operator structures (orders 1..3 quick / 1..4 thorough; row, column and inner sizes distinct per position; every singleton substitution; rank profiles; dense operands with 0..3 batch dims) x all operator operations compared bit-for-bit / to roundoff with the dense operator expression; product rank law and dtype checked. Uniform square structures (orders 3..4) with uniform ranks for both operands.',
          'values not enumerated (polynomial identities); torch dense kernels trusted', '§5 C04'),
- 'C07': (E1H, 'norm (plain/squared x autograd off/leaf/non-leaf), dot (full and over EVERY axis subset), sum (all and EVERY axis subset, int and list form), bilinear_form on all structures of order 1..4 (5 thorough) tensors and 1..3 operators, real/complex/zero, compared with dense reductions incl. result shape.',
+ 'C07': (E1H, 'norm (plain/squared x autograd off/leaf/non-leaf), dot (full and over EVERY axis subset), sum (all and EVERY axis subset, int and list form), bilinear_form on all structures of order 1..4 (5 thorough) tensors and 1..3 operators, real/complex/zero, compared with dense reductions incl. result shape. The empty subset of summed modes included.',
          'values not enumerated; scalar results accepted as 0-d/1-element tensors or numbers', '§5 C07'),
  'C08': (E1H, 'ALL full-length index tuples over the per-mode alphabet {0,-1,mid,:,1:,0:1,::2,:-1} with 0..2 None insertions at every position and leading/trailing Ellipsis, on every structure of order 1..3 (4 thorough), plus operator (int,int)/(slice,slice) pairs and apply_mask with every 1-/2-row index matrix: shape (every axis) and bits equal dense[index].',
          'partial index tuples (shorter than the order, no Ellipsis) not enumerated; int64 index matrices', '§5 C08'),
 })
 CHECKS.update({
- 'C09': (E1H, 'cat (every axis, 2..3 operands with distinct sizes), pad (every trailing subset of modes, widths {0,1,2}^2, fill 0 and non-zero, tensors and operators with the block oracle of the statement), diag (both directions, rectangular too), mprod (every mode and every subset/order of modes), to_ttm, conj, clone on all structures of order 1..3 (4 thorough), bit-equal to the dense operation.',
+ 'C09': (E1H, 'cat (every axis, 2..3 operands with distinct sizes), pad (every trailing subset of modes, widths {0,1,2}^2, fill 0 and non-zero, tensors and operators with the block oracle of the statement), diag (both directions, rectangular too), mprod (every mode and every subset/order of modes), to_ttm, conj, clone on all structures of order 1..3 (4 thorough), bit-equal to the dense operation. cat also on uniform structures (orders 3..5, one core shape).',
          'operator pad: padded diagonal entries outside the two corner blocks are unconstrained by the statement and not compared', '§5 C09'),
- 'C18': (E1, 'Every public entry point x every incompatibility class (mismatch at each position incl. against size-1 modes, order/kind/type mismatch, out-of-range index/axis/mode/dim, element-count mismatch, bad rank lists, mis-shaped cores) on orders 1..3: must raise (validity decided by the dense model), documented cases must raise a library exception type, operands unchanged.',
+ 'C18': (E1, 'Every public entry point x every incompatibility class (mismatch at each position incl. against size-1 modes, order/kind/type mismatch, out-of-range index/axis/mode/dim, element-count mismatch, bad rank lists, mis-shaped cores) on orders 1..3: must raise (validity decided by the dense model), documented cases must raise a library exception type, operands unchanged. Indices addressing too few modes padded with new-axis entries on rank-1 and rank-2 operands.',
          'documented-case table transcribed from docstrings; dense-valid but undocumented arguments only need to raise or agree', '§5 C18'),
- 'C19': (E1H, 'save->load, clone, detach, to(dtype), cpu, numpy on all structures order 1..4 (6 thorough) x dtype x provenance (leaf, TT-SVD, truncated TT-SVD, slice view, t(), conj(), detached, rounded, summed): bit-identical cores and metadata, disjoint storage for clone, source untouched.',
+ 'C19': (E1H, 'save->load, clone, detach, to(dtype), cpu, numpy on all structures order 1..4 (6 thorough) x dtype x provenance (leaf, TT-SVD, truncated TT-SVD, slice view, t(), conj(), detached, rounded, summed): (provenance also: TT-SVD cut by a binding rank cap, scalar and per-bond) bit-identical cores and metadata, disjoint storage for clone, source untouched.',
          'CPU only', '§5 C19'),
  'C20': (E1, 'All size_in/size_out lists of 1..3 (4 thorough) modes with every singleton substitution, all rank profiles over {1,2,3}, batch ranks 0..3, float32/float64, He/Glo: forward value, parameter registration and all parameter gradients equal those of the dense affine map contracted from the layer\'s own cores.',
          'bias overwritten with a non-zero tensor; torch RNG seeded', '§5 C20'),
@@ -35,31 +35,31 @@ CHECKS.update({
 CHECKS.update({
  'C01': (E3, 'For every enumerated dense input (orders 1..4 quick / 1..6 thorough, all {1,2,3}^d shapes for d<=3, operator shapes, torch/numpy sources, shape-argument forms, f64/c128/f32, spectra: exact low rank, full, decaying, flat (ties), saturating, zero) the explorer visits EVERY rank-decision sequence that any eps in (0,1) can produce, and the +-2 ulp neighbourhood of every breakpoint, for rmax in {inf,1,2,per-bond list}; shape, error <= eps|A|, rank <= rmax, rank <= exact unfolding rank are checked on every run.',
          'rank_chop observed through a wrapper installed from outside; breakpoints computed from all tail-energy levels of all logged calls; checker SVD for exact ranks', '§4.1, §5 C01'),
- 'C02': (E3H, 'Same decision walk (plus eps=0) on x.round(eps,rmax) for raw random / badly scaled / rank-deficient / over-parameterised / zero / inflated (x+x-x) / TT-SVD-provenance inputs, tensors and operators, orders 1..4 (7 thorough): shape, error bound, R_out<=R_in, <=rmax, <=exact unfolding rank, operand snapshot (values, ranks, version counters) unchanged after every run.',
+ 'C02': (E3H, 'Same decision walk (plus eps=0) on x.round(eps,rmax) for raw random / badly scaled / rank-deficient / over-parameterised / zero / inflated (x+x-x) / TT-SVD-provenance inputs, tensors and operators, orders 1..4 (7 thorough): shape, error bound, R_out<=R_in, <=rmax, <=exact unfolding rank, operand snapshot (values, ranks, version counters) unchanged after every run. Scaled families at 1e-13/1e+13 and 1e-30/1e+30.',
          'as C01', '§4.1, §5 C02'),
  'C10': (E3H, 'reshape: ALL ordered pairs of ordered factorisations (with inserted singleton modes) of the element counts {4,6,8,12} (to 36 thorough), tensors and operators; permute: ALL permutations up to order 4 (6 thorough), tensors and operators; to_qtt/qtt_to_tens: all shapes over {1,2,4,8}(16) and mode_size 3 powers; exact mode sizes and value within C*eps incl. complex phase; loose eps by the complete decision walk on [1e-8,0.3).',
          'error budget constants C from DESIGN §5 C10', '§5 C10'),
 })
 EM = 'bounded exhaustive enumeration of operand structures x finite menus (eps, internal RNG seeds, initial guesses, solver options) on the real library, dense reference'
 CHECKS.update({
- 'C11': (EM, 'fast_matvec, dmrg_hadamard, amen_mv, amen_mm on all operand structures of order 1..4 (6 thorough) with rectangular distinct modes and singleton substitutions, ranks {1,2,4}x{1,3}, exact-rank and decaying cores, eps in {1e-12,1e-8,1e-4,1e-1}, seeds 0..2 (0..7), initial guess in {none, rank 1, rank 5, zero}, real and complex (DMRG): shape and error <= 10*eps.',
+ 'C11': (EM, 'fast_matvec, dmrg_hadamard, amen_mv, amen_mm on all operand structures of order 1..4 (6 thorough) with rectangular distinct modes and singleton substitutions, ranks {1,2,4}x{1,3}, exact-rank and decaying cores, eps in {1e-12,1e-8,1e-4,1e-1}, seeds 0..2 (0..7), initial guess in {none, rank 1, rank 5, zero}, real and complex (DMRG): shape and error <= 10*eps. Sweep budget nswp in {1,2,3} for the two DMRG routines wherever one sweep suffices (order 2 with any guess; orders 2..4 with the exact product as guess).',
          'finite seed menu covered completely; python backend', '§5 C11'),
- 'C12': (EM, 'Every amen_solve configuration with <= 3 (4 thorough) deviations from the default over the axes order, sizes, system class (Laplacian, diagonally dominant, SPD, non-symmetric convection-diffusion), operator rank, rhs rank, eps, preconditioner {None,c,r}, local solver {direct, GMRES, BiCGSTAB}, initial guess, seed; plus the full product class x solver x preconditioner x eps on large modes (12,10[,11]) and 12^3 systems that need several GMRES cycles: dense residual <= 100*eps. One known finding (BiCGSTAB local solver) is listed in known_findings.json.',
+ 'C12': (EM, 'Every amen_solve configuration with <= 3 (4 thorough) deviations from the default over the axes order, sizes, system class (Laplacian, diagonally dominant, SPD, non-symmetric convection-diffusion), operator rank, rhs rank, eps, preconditioner {None,c,r}, local solver {direct, GMRES, BiCGSTAB}, initial guess, seed; plus the full product class x solver x preconditioner x eps on large modes (12,10[,11]) and 12^3 systems that need several GMRES cycles: dense residual <= 100*eps. One known finding (BiCGSTAB local solver) is listed in known_findings.json. Every configuration with a user-supplied x0 also runs a second solve with another right-hand side and the SAME x0 object.',
          'finite seed menu; python backend; BiCGSTAB classes listed as a known finding (DESIGN §8)', '§5 C12, §8'),
- 'C13': (EM, 'x/y, s/y, x/s, elementwise_divide(eps, preconditioner, starting_tensor) for y = 1+z*z in [1,5], orders 2..4 (5), sizes with singleton substitutions, x ranks 1..3, z ranks 1..2, seeds: |q*y-x| <= 100*eps|x|; x/s exact.',
+ 'C13': (EM, 'x/y, s/y, x/s, elementwise_divide(eps, preconditioner, starting_tensor) for y = 1+z*z in [1,5], orders 2..4 (5), sizes with singleton substitutions, x ranks 1..3, z ranks 1..2, scalars of both signs and every scalar kind, seeds: |q*y-x| <= 100*eps|x|; x/s exact.',
          'finite seed menu', '§5 C13'),
  'C14': (EM + '; monitor on EVERY callback invocation', 'dmrg_cross and function_interpolate (uni-/multivariate) on all shapes over {2,3,4}^d, d=2,3, plus uneven / tiny / larger shapes, targets of exact TT rank 1..4 and a smooth function, eps in {1e-3,1e-6,1e-10}, seeds, start tensors of rank 1/3 (over-parameterised too): every index / value matrix handed to the user function is validated (shape M x d, column ranges / membership), result error <= 100*eps.',
          'finite seed menu', '§5 C14'),
 })
 CHECKS.update({
- 'C05': (E2, 'Depth-first explicit-state search over ALL histories of public calls (65 event templates incl. every initial-guess argument position: constructors/algebra/rounding/slicing/reshaping/solvers/in-place set_core, reduce_dims, watch) of depth 2 (quick) / 3 unmerged + 4 merged on two pools (thorough) from 5 initial pools; after EVERY transition the well-formedness predicate (cores 3-d/4-d, rank chain, boundary ranks, reported N/M/R/shape/is_ttm equal the cores, full().shape == M+N) is evaluated on EVERY live object.',
+ 'C05': (E2, 'Depth-first explicit-state search over ALL histories of public calls (65 event templates incl. every initial-guess argument position: constructors/algebra/rounding/slicing/reshaping/solvers/in-place set_core, reduce_dims, watch) of depth 2 (quick) / 3 unmerged + 4 merged on two pools (thorough) from 6 initial pools (the sixth: uniform order-4 structure with ONE interior core shape, depth 2 in both tiers); after EVERY transition the well-formedness predicate (cores 3-d/4-d, rank chain, boundary ranks, reported N/M/R/shape/is_ttm equal the cores, full().shape == M+N) is evaluated on EVERY live object.',
          'partial-order reduction: from depth 2 an event involves the newest object or is in-place; same-dtype operands; objects larger than 2e4 entries are not densified', '§4.2, §5 C05'),
  'C06': (E2, 'Same search with the immutability monitor: frozen records (core values, version counters, R, N, M, dtype, core count) of every live object compared after every transition; every TT argument position of every entry point (operands and initial guesses) is filled from the pool; views stay views under replay so writes through a result into its source are seen.',
          'as C05', '§4.2, §5 C06'),
 })
 CHECKS.update({
  'C15': ('bounded exhaustive enumeration of programs (expression trees) x tracking choices on the real library, dense autograd reference + finite differences',
-         'ALL type-correct expression trees of depth <= 2 (3 thorough) over the differentiable TT operations (+,-,*,@ in all forms, scalar ops, mprod, transpose, ...) closed by every terminal (full, sum, norm, dot incl. partial, bilinear_form, slicing, apply_mask, cat, pad, kron, sum(axes), diag, mprod list) x 8 tracking choices (which operand, all cores or one core): value and every tracked-core gradient equal the dense-model autograd result (1e-9) and a central finite difference (1e-5); grad.watch/grad.grad return the same tensors with the cores\' shapes.',
+         'ALL type-correct expression trees of depth <= 2 (3 thorough) over the differentiable TT operations (+,-,*,@ in all forms, scalar ops, mprod, transpose, ...) closed by every terminal (full, sum, norm, dot incl. partial, bilinear_form, slicing, apply_mask, cat, pad, kron, sum(axes), diag, mprod list) x 8 tracking choices (which operand, all cores or one core): value and every tracked-core gradient equal the dense-model autograd result (1e-9) and a central finite difference (1e-5); grad.watch/grad.grad return the same tensors with the cores\' shapes. Leaf rank profiles with a rank-1 last / first bond (1x1x1 cores) for all terminals at depth 0..1.',
          'float64; fixed small operand shapes [2,3,2] with ranks (2,2)/(3,2); values generic', '§5 C15'),
  'C16': (E1, 'For every achievable minimal rank profile over ranks <= 3 of base points of order 2..4 (5 thorough), tensors and operators, and z,w of rank 1..4: P(z) equals the checker\'s own dense tangent-space projector (built from unfolding SVDs), plus linearity, idempotence, self-adjointness, P(x)=x, residual orthogonality, rank <= 2r; riemannian_gradient equals the projected dense Euclidean gradient for three f.',
          'generic cores make the profile minimal (verified by SVD, else skipped and counted); tolerance 1e-9', '§5 C16'),
